@@ -8,6 +8,7 @@
 //             (writes = locations whose content changed), and re-run after perturbing one location at a time
 //             (reads = locations whose perturbation changes what the item writes).  Uses the positions set by the
 //             preceding `pos` commands (they must differ from those of the last step).  Last command of a case.
+//   sharefreq   print type and replica_share_freq() of every bias
 //   setupoutput   colvarmodule::setup_output() (as an engine calls it after the configuration)
 //   endcase   print ENDCASE, destroy the module and the proxy (several scenarios in one process)
 // Reads scenarios from stdin or argv[1].
@@ -211,6 +212,11 @@ struct c12_session : public vsim_session {
       return true;
     }
     if (cmd == "footprints") { footprints(); return true; }
+    if (cmd == "sharefreq") {    // per bias: type, replica_share_freq() (what makes calc_biases keep the loop on the main thread)
+      for (colvarbias *b : proxy->colvars->biases)
+        o << "SHAREFREQ " << b->name << " " << b->bias_type << " " << b->replica_share_freq() << "\n";
+      return true;
+    }
     if (cmd == "setupoutput") {   // what an engine does after the configuration was read (replica files of metadynamics are opened there)
       cvm::clear_error();
       int err = proxy->colvars->setup_output();
